@@ -57,6 +57,73 @@ def leaves(st, base=0, path=''):
     return out
 
 
+def signs(st, path=''):
+    out = {}
+    for f in st.fields:
+        if f.struct is not None and f.count is None:
+            out.update(signs(f.struct, path + f.name + '.'))
+        else:
+            out[path + f.name] = f.signed
+    return out
+
+
+def check_layouts(ctx, H, rule='L1', only=None, floor=140):
+    """every ctypes mirror has the size, field offsets, widths, names, byte order and (where the daemon decodes the field) signedness
+    of the kernel structure in the vendored UAPI headers"""
+    prog = ctx.prog
+    nfields = 0
+    sizes = {}
+    read_attrs = {x.attr for m in prog.modules.values() for x in ast.walk(m.tree)
+                  if isinstance(x, ast.Attribute) and isinstance(x.ctx, ast.Load)}
+    for pyq, cname in PAIRS:
+        if only is not None and pyq not in only:
+            continue
+        cls = prog.cls(pyq)
+        ctx.require(cname in H.structs, 'UAPI reader did not find struct %s' % cname)
+        ps, cs = py_layout(prog, cls), H.structs[cname]
+        sizes[pyq] = ps.size
+        pl, cl = leaves(ps), leaves(cs)
+        psg, csg = signs(ps), signs(cs)
+        flex = cname == 'xfrm_algo'
+        if flex:
+            # variable-length key: compare the fixed part; the mirror's fixed-size key array starts where alg_key[] starts
+            ctx.check(len(pl) == 3 and len(cl) == 3 and pl[2][1] == cl[2][1] == 68, rule, 'XfrmAlgo: the key starts at offset 68 '
+                      '(alg_key[] of struct xfrm_algo)', key=(rule, pyq, 'key-offset'))
+            pl, cl = pl[:2], cl[:2]
+        else:
+            ctx.check(ps.size == cs.size, rule, '%s has the size of struct %s (%d octets)' % (cls.name, cname, cs.size),
+                      key=(rule, pyq, 'size'), detail={'mirror': ps.size, 'kernel': cs.size})
+        ctx.check(len(pl) == len(cl), rule, '%s has as many leaf fields as struct %s (%d)' % (cls.name, cname, len(cl)),
+                  key=(rule, pyq, 'count'), detail={'mirror': [p[0] for p in pl], 'kernel': [c[0] for c in cl]})
+        for (pn, po, psz, pord), (cn, co, csz, cord) in zip(pl, cl):
+            nfields += 1
+            ctx.check((po, psz) == (co, csz), rule, '%s.%s sits at offset %d with %d octets like %s.%s' % (cls.name, pn, co, csz, cname, cn),
+                      key=(rule, pyq, 'field', cn), detail={'mirror': (pn, po, psz), 'kernel': (cn, co, csz)})
+            leaf = cn.split('.')[-1]
+            pparts, cparts = pn.split('.'), cn.split('.')
+            same = len(pparts) == len(cparts) and all(a == b or (a, b) in NAME_ALIASES for a, b in zip(pparts, cparts))
+            ctx.check(same, rule, '%s.%s is the mirror of %s.%s (same field name, so same-width neighbours are not swapped)' % (
+                cls.name, pn, cname, cn), key=(rule, pyq, 'name', cn), detail={'mirror': pn, 'kernel': cn})
+            if psg.get(pn) is not None and csg.get(cn) is not None and (psg[pn] == csg[cn] or pn.split('.')[-1] in read_attrs):
+                # the sign matters where the daemon decodes the field: a mirror field that is only ever written with non-negative
+                # constants produces the same octets either way
+                ctx.check(psg[pn] == csg[cn], rule, '%s.%s is %s like the kernel field (a negative errno, priority or offset reads back as '
+                          'such)' % (cls.name, pn, 'signed' if csg[cn] else 'unsigned'), key=(rule, pyq, 'sign', cn),
+                          detail={'mirror signed': psg[pn], 'kernel signed': csg[cn]})
+            if cord == 'B':
+                inv = any(leaf == f for (_, f) in ORDER_INVARIANT)
+                ok = pord in ('B', '-') or inv
+                ctx.check(ok, rule, '%s.%s is network byte order like the kernel field (big-endian type or byte array%s)' % (
+                    cls.name, pn, ', or only byte-order-invariant constants' if inv else ''), key=(rule, pyq, 'order', cn),
+                    detail={'mirror order': pord})
+            elif cord == 'N':
+                ctx.check(pord == 'N', rule, '%s.%s is host byte order like the kernel field' % (cls.name, pn),
+                          key=(rule, pyq, 'order', cn), detail={'mirror order': pord})
+    ctx.floor('%s leaf fields compared' % rule, nfields, floor)
+    return sizes
+
+
+
 def run(ctx):
     prog, res = ctx.prog, ctx.res
     H = Headers()
@@ -65,44 +132,7 @@ def run(ctx):
     ctx.stats['UAPI oracle digests'] = H.digests
 
     # ---------------------------------------------------------------- L1
-    nfields = 0
-    sizes = {}
-    for pyq, cname in PAIRS:
-        cls = prog.cls(pyq)
-        ctx.require(cname in H.structs, 'UAPI reader did not find struct %s' % cname)
-        ps, cs = py_layout(prog, cls), H.structs[cname]
-        sizes[pyq] = ps.size
-        pl, cl = leaves(ps), leaves(cs)
-        flex = cname == 'xfrm_algo'
-        if flex:
-            # variable-length key: compare the fixed part; the mirror's fixed-size key array starts where alg_key[] starts
-            ctx.check(len(pl) == 3 and len(cl) == 3 and pl[2][1] == cl[2][1] == 68, 'L1', 'XfrmAlgo: the key starts at offset 68 '
-                      '(alg_key[] of struct xfrm_algo)', key=('L1', pyq, 'key-offset'))
-            pl, cl = pl[:2], cl[:2]
-        else:
-            ctx.check(ps.size == cs.size, 'L1', '%s has the size of struct %s (%d octets)' % (cls.name, cname, cs.size),
-                      key=('L1', pyq, 'size'), detail={'mirror': ps.size, 'kernel': cs.size})
-        ctx.check(len(pl) == len(cl), 'L1', '%s has as many leaf fields as struct %s (%d)' % (cls.name, cname, len(cl)),
-                  key=('L1', pyq, 'count'), detail={'mirror': [p[0] for p in pl], 'kernel': [c[0] for c in cl]})
-        for (pn, po, psz, pord), (cn, co, csz, cord) in zip(pl, cl):
-            nfields += 1
-            ctx.check((po, psz) == (co, csz), 'L1', '%s.%s sits at offset %d with %d octets like %s.%s' % (cls.name, pn, co, csz, cname, cn),
-                      key=('L1', pyq, 'field', cn), detail={'mirror': (pn, po, psz), 'kernel': (cn, co, csz)})
-            leaf = cn.split('.')[-1]
-            pparts, cparts = pn.split('.'), cn.split('.')
-            same = len(pparts) == len(cparts) and all(a == b or (a, b) in NAME_ALIASES for a, b in zip(pparts, cparts))
-            ctx.check(same, 'L1', '%s.%s is the mirror of %s.%s (same field name, so same-width neighbours are not swapped)' % (
-                cls.name, pn, cname, cn), key=('L1', pyq, 'name', cn), detail={'mirror': pn, 'kernel': cn})
-            if cord == 'B':
-                inv = any(leaf == f for (_, f) in ORDER_INVARIANT)
-                ok = pord in ('B', '-') or inv
-                ctx.check(ok, 'L1', '%s.%s is network byte order like the kernel field (big-endian type or byte array%s)' % (
-                    cls.name, pn, ', or only byte-order-invariant constants' if inv else ''), key=('L1', pyq, 'order', cn),
-                    detail={'mirror order': pord})
-            elif cord == 'N':
-                ctx.check(pord == 'N', 'L1', '%s.%s is host byte order like the kernel field' % (cls.name, pn),
-                          key=('L1', pyq, 'order', cn), detail={'mirror order': pord})
-    ctx.floor('L1 leaf fields compared', nfields, 140)
+    sizes = check_layouts(ctx, H)
 
     # ---------------------------------------------------------------- L2
     ncons = 0
@@ -162,7 +192,10 @@ def run(ctx):
             if not (tq.is_call(u) and u[1] in ('struct.unpack_from', 'struct.unpack')):
                 return None
             a = [tq.restrict(x, decide) for x in tq.args(u).values()]
-            if not a or a[0][0] != 'const' or not isinstance(a[0][2], str) or len(a) < 2 or strip_ids(a[1]) != packed:
+            if not a or a[0][0] != 'const' or not isinstance(a[0][2], str) or len(a) < 2:
+                return None
+            if strip_ids(a[1]) != packed:
+                wrong.append(tq.text(a[1], 200))        # an unpack of something other than the octets of the address handed in
                 return None
             off = a[2][2] if len(a) > 2 and a[2][0] == 'const' else 0
             fmt = a[0][2]
@@ -203,8 +236,13 @@ def run(ctx):
             else:
                 return None
         return m
+    wrong = []
     m6, m4 = word_map(True), word_map(False)
-    if m6 is None or m4 is None or not tq.is_call(res_t, 'new xfrm.XfrmAddress'):
+    if wrong:
+        ctx.bad('L3', ('L3', 'from-ipaddr', 'source'), 'XfrmAddress.from_ipaddr: the words of the kernel address are unpacked from the packed '
+                'octets of the address object it is given, and from nothing else (found: %s)' % wrong[0], ctx.site(fa, fa.node),
+                {'unpacked from': wrong})
+    elif m6 is None or m4 is None or not tq.is_call(res_t, 'new xfrm.XfrmAddress'):
         ctx.unrecognised('L3', 'XfrmAddress.from_ipaddr does not fill result.addr[..] from struct.unpack*(<big-endian format>, ip.packed[, offset])',
                          ctx.site(fa, fa.node))
     else:
